@@ -10,7 +10,14 @@ cd "$(dirname "$0")/.."
 s=$(date +%s)
 VERIF_REPO=$wt python3 check.py $prop "$@" > .work/eval_$id.$prop.out 2>&1
 rc=$?
-echo "$id $prop rc=$rc $(( $(date +%s) - s ))s | $(grep -E "VIOLATION|INCONCLUSIVE|^OK" .work/eval_$id.$prop.out | head -3 | tr '\n' ';' | cut -c1-300)"
+summary="$(grep -E "VIOLATION|INCONCLUSIVE|^OK" .work/eval_$id.$prop.out | head -4 | tr '\n' ';' | cut -c1-400)"
+echo "$id $prop rc=$rc $(( $(date +%s) - s ))s | $summary"
+python3 - "$d" "$prop" "$rc" "$(( $(date +%s) - s ))" "$summary" "$*" <<'PY'
+import json, sys, time
+d, prop, rc, secs, summary, args = sys.argv[1:7]
+with open(d + "/runs.jsonl", "a") as f:
+    f.write(json.dumps({"property": prop, "args": args, "exit": int(rc), "seconds": int(secs), "summary": summary, "how": "patch applied to a scratch worktree of /repo HEAD; check.py run with VERIF_REPO=<worktree>", "at": time.strftime("%Y-%m-%dT%H:%M:%S")}) + "\n")
+PY
 git -C /repo worktree remove --force $wt
 h=$(echo -n $wt | sha256sum | cut -c1-8)
 rm -rf .work/harness-$h .work/slot-$h-* .work/replay-target-$h
